@@ -513,7 +513,7 @@ func c05Alphabet(tier string) []c05Event {
 	for _, c := range c05Cmds {
 		ev = append(ev, c05Event{kind: "follow", cmd: c})
 	}
-	rk := []string{"alice", "anon"}
+	rk := []string{"alice", "anon", "plain"}
 	if tier == "thorough" {
 		rk = []string{"alice", "bob", "anon", "plain"}
 	}
